@@ -4,6 +4,7 @@
    which turns them into felts, transactions, state diffs and classes. *)
 EXTENDS PreConfirmed
 
+Unbounded == -1
 MCBlank == "0x0"
 RealIds == {"a", "b"}
 AllIds == RealIds \cup {MCBlank}
